@@ -14,6 +14,7 @@ RULE = ("all ordered pairs (i1,i2) for serial widths 1..8 (quick) / 1..10 (thoro
 ASSUMPTIONS = ["the RFC 1982 reference in this module (15 lines on Python ints) is the oracle; "
                "the Lean proof named in the property text is outside this technique family"]
 SHARDS = {"quick": 4, "thorough": 16}
+READY = True
 FLOORS = {"compare_pairs": 1000, "additions": 500, "half_ring_pairs": 10, "refused_additions": 10}
 
 
